@@ -89,12 +89,18 @@ contract("iface::ILogger.write", params=["self", "dictionary", "serializer"], de
 
 RELY = [("context-restored", "CTX[me] == old(CTX[me])"),
         ("tokens-untouched", "unchanged_old('tok_old') and unchanged_old('tok_used') and unchanged_old('tok_ctx')"),
-        ("other-contexts-untouched", "forall(lambda c: implies(c != me, CTX[c] == old(CTX[c])), 'int')")]
+        ("other-contexts-untouched", "forall(lambda c: implies(c != me, CTX[c] == old(CTX[c])), 'int')"),
+        ("current-action-stays-consistent-and-open",
+         "implies(curact() is not None, rep_ok(typed(curact(), 'Action')) and typed(curact(), 'Action')._finished == old(typed(curact(), 'Action')._finished) "
+         "and typed(curact(), 'Action')._parent_token == old(typed(curact(), 'Action')._parent_token) and pos(typed(curact(), 'Action')) >= old(pos(typed(curact(), 'Action'))) "
+         "and lvl(typed(curact(), 'Action')) == old(lvl(typed(curact(), 'Action'))) and uu(typed(curact(), 'Action')) == old(uu(typed(curact(), 'Action'))) "
+         "and typed(curact(), 'Action')._successFields == old(typed(curact(), 'Action')._successFields) "
+         "and typed(curact(), 'Action')._identification == old(typed(curact(), 'Action')._identification))")]
 
 contract("iface::UserCode.__call__", returns="Any",
          notes="application code run inside an action (f of Action.run, a wrapped function): may do anything, including "
                "calling the Eliot API, but like every Eliot construct it leaves the current action as it found it and never "
-               "touches context tokens it does not own; may raise any BaseException",
+               "touches context tokens it does not own, and leaves the current action consistent and unfinished; may raise any BaseException",
          modifies=["*"],
          ensures=RELY + [("recorded", "last(CALLS) == Ev('ret', self, args, kwargs, result, old(CTX[me]))")],
          raises=[{"cls": "BaseException", "ensures": RELY + [("recorded", "last(CALLS) == Ev('exc', self, args, kwargs, exc, old(CTX[me]))")]}])
@@ -241,3 +247,36 @@ contract("iface::ext.orjson.dumps", params=["o", "default"], defaults={"default"
                "fidelity is the assumed orjson contract (bounded differential check in drivers/c10.py)",
          modifies=["#CALLS"], ensures=[("recorded", "CALLS == old(CALLS) + [Ev('dumps', o, default, None, result)]")],
          raises=[{"cls": "Exception", "ensures": [("recorded", "CALLS == old(CALLS) + [Ev('dumps-failed', o, default, None, exc)]")]}])
+
+
+# ---------------------------------------------------------------- string library axioms (trusted; cross-checked natively by drivers/facts_check.py)
+def _string_axioms(eng):
+    import z3
+    from pyvc.sorts import SeqV, Val, S
+    from pyvc.models import str_split, str_join, str_of, int_of_str, is_int_str
+    map_str = z3.Function("map_str", SeqV, SeqV)
+    map_int_nonempty = z3.Function("map_int_nonempty", SeqV, SeqV)
+    all_int_nonempty = z3.Function("all_int_nonempty", SeqV, z3.BoolSort())
+    all_nat = z3.Function("all_nat", SeqV, z3.BoolSort())
+    u, t = z3.Consts("sx!u sx!t", S)
+    l = z3.Const("sx!l", SeqV)
+    at, slash = z3.StringVal("@"), z3.StringVal("/")
+    levelstr = z3.Concat(slash, str_join(slash, map_str(l)))
+    from pyvc.models import ascii_ok
+    return [
+        z3.ForAll([u, t], ascii_ok(z3.Concat(u, t)) == z3.And(ascii_ok(u), ascii_ok(t)), patterns=[ascii_ok(z3.Concat(u, t))]),
+        ascii_ok(at), ascii_ok(slash),
+        # "<u>@<t>".split("@") == [u, t] when neither part contains "@"
+        z3.ForAll([u, t], z3.Implies(z3.And(z3.Not(z3.Contains(u, at)), z3.Not(z3.Contains(t, at))),
+                                     str_split(z3.Concat(u, at, t), at) == z3.Concat(z3.Unit(Val.StrV(u)), z3.Unit(Val.StrV(t)))),
+                  patterns=[str_split(z3.Concat(u, at, t), at)]),
+        # [int(i) for i in ("/" + "/".join(map(str, l))).split("/") if i] == l   for lists of non-negative ints; no "@" in a level string
+        z3.ForAll([l], z3.Implies(all_nat(l), z3.And(map_int_nonempty(str_split(levelstr, slash)) == l,
+                                                      all_int_nonempty(str_split(levelstr, slash)),
+                                                      z3.Not(z3.Contains(levelstr, at)))),
+                  patterns=[str_join(slash, map_str(l))]),
+    ]
+
+axiom("string-codec", _string_axioms,
+      "str.split/join/str(int)/int(str) axioms: splitting '<u>@<t>' at '@' when neither part contains '@'; the level codec "
+      "'/'+'/'.join(map(str, l)) is inverted by [int(i) for i in s.split('/') if i] for lists of non-negative ints")
